@@ -172,11 +172,39 @@ def traced(spec: dict) -> dict:
             return seq[i] if i < len(seq) else policy.get('then', 'continue')
         raise ValueError(k)
 
+    withheld: dict = {'trace': None, 'event': None, 'released_at': None, 'thread_traces': {}}
+
+    def release() -> None:
+        ev = withheld['event']
+        if ev is not None and withheld['released_at'] is None:
+            withheld['released_at'] = len(out)
+            qi.put(PdbCommand(trace_no=ev.trace_no, prompt_no=ev.prompt_no, command=policy.get('command', 'next')))
+            sent.append((ev.trace_no, ev.prompt_no, policy.get('command', 'next')))
+
     def responder() -> None:
-        while (ev := qo.get()) is not None:
+        import time as _time
+        while True:
+            try:
+                ev = qo.get(timeout=0.25)
+            except queue.Empty:
+                release()          # nothing has happened for a while: everything that can progress has progressed
+                continue
+            if ev is None:
+                break
             out.append(ev)
+            if isinstance(ev, E.OnStartTrace) and ev.task_no is None and ev.thread_no >= 2:
+                withheld['thread_traces'][ev.trace_no] = len(out)
             if isinstance(ev, E.OnStartPrompt):
                 nprompts[0] += 1
+                if policy['kind'] == 'withhold':
+                    tts = sorted(withheld['thread_traces'])
+                    if withheld['trace'] is None and tts and ev.trace_no == tts[0]:
+                        withheld['trace'] = ev.trace_no
+                        withheld['event'] = ev
+                        continue      # no answer for now
+                    qi.put(PdbCommand(trace_no=ev.trace_no, prompt_no=ev.prompt_no, command=policy.get('command', 'next')))
+                    sent.append((ev.trace_no, ev.prompt_no, policy.get('command', 'next')))
+                    continue
                 cmd = choose(ev)
                 if spec.get('decoys'):
                     qi.put(PdbCommand(trace_no=ev.trace_no, prompt_no=ev.prompt_no - 1, command='p "DECOY-stale"'))
@@ -206,7 +234,8 @@ def traced(spec: dict) -> dict:
         qo.put(None)
         t.join(10)
     return {'events': [_clean_event(e) for e in out], 'ret': None if r is None else (r.ret if isinstance(r.ret, (int, str, float, bool, type(None), list)) else repr(r.ret)),
-            'fmt_exc': None if r is None else r.fmt_exc, 'stdout': tee.text(), 'writes': tee.writes, 'error': err, 'sent': sent}
+            'fmt_exc': None if r is None else r.fmt_exc, 'stdout': tee.text(), 'writes': tee.writes, 'error': err, 'sent': sent,
+            'withheld': {'trace': withheld['trace'], 'released_at': withheld['released_at']}}
 
 
 def run_one(spec: dict) -> dict:
